@@ -91,6 +91,14 @@ def completion_cell(P, A):
                 sig = 'completed-reread-%s-completed-%s' % (type(back).__name__, back.completed)
             elif len(ro.xml.findall('mosromgrmeta')) != 1:
                 sig = 'completion-records-%d' % len(ro.xml.findall('mosromgrmeta'))
+            else:
+                # "still completed" after the round trip: it refuses every message as well
+                snap_b = B.snap(back.xml)
+                o = B.merge(back, any_message(op, P, A, ids, addr, A['n1']))
+                if not (o.raised and type(o.exc) is MosCompletedMergeError):
+                    sig = 'reread-accepts-merge-%s' % (type(o.exc).__name__ if o.raised else 'accepted')
+                elif B.snap(back.xml) != snap_b:
+                    sig = 'reread-changed-after-completion'
     B.hit()
     if B.Ctx.replay:
         B.note(sig=sig, observed=sig, expected='completion faithful and terminal')
